@@ -132,6 +132,40 @@ def own_body(ctx: H.BaseCtx):
                             if SP.bytes_of(sp) != before:
                                 ctx.fail("mutated", "%s changed the bytes of its argument (coefficients incl. %s, -0.0, 5e-324)" % (name, pair))
                                 before = SP.bytes_of(sp)
+            if not ctx.symbolic:
+                # arguments that are not polynomials at all -- index arrays, repeat counts, split points, bounds -- given as int64
+                # ndarrays (the kind a conversion with asarray returns unchanged): byte-identical afterwards, whatever the call does
+                q0 = numpoly.variable()
+                for nchoices in (3, 70):
+                    choices = numpoly.polynomial([k * q0 + 1 for k in range(nchoices)])
+                    for mode in ("wrap", "clip", "raise"):
+                        idx = numpy.array([0, nchoices + 5, -1, 2], dtype=numpy.int64)
+                        before_i = idx.tobytes()
+                        try:
+                            numpoly.choose(idx, choices, mode=mode)
+                        except Exception:
+                            pass
+                        if idx.tobytes() != before_i:
+                            ctx.fail("mutated", "choose(mode=%s) with %d choices changed its index array to %s" % (mode, nchoices, idx.tolist()))
+                vec = numpoly.polynomial([q0, 2 * q0, q0 ** 2, 3])
+                for name, arr, call in (
+                    ("repeat(repeats=array)", numpy.array([1, 0, 2, 1], dtype=numpy.int64), lambda x: numpoly.repeat(vec, x, axis=0)),
+                    ("split(indices=array)", numpy.array([1, -1], dtype=numpy.int64), lambda x: numpoly.split(vec, x)),
+                    ("array_split(indices=array)", numpy.array([3, 1], dtype=numpy.int64), lambda x: numpoly.array_split(vec, x)),
+                    ("glexindex(start=array)", numpy.array([-1, 0], dtype=numpy.int64), lambda x: numpoly.glexindex(x, numpy.array([2, 3]), dimensions=2)),
+                    ("monomial(start=array)", numpy.array([0, 1], dtype=numpy.int64), lambda x: numpoly.monomial(x, 3, dimensions=2)),
+                    ("getitem(index array)", numpy.array([3, -1, 0], dtype=numpy.int64), lambda x: vec[x]),
+                    ("tile(reps=array)", numpy.array([2, 1], dtype=numpy.int64), lambda x: numpoly.tile(vec, x)),
+                    ("cross_truncate(indices)", numpy.array([[0.0, 3.0], [2.0, 2.0]]), lambda x: numpoly.cross_truncate(x, 3, 1)),
+                    ("glexsort(keys)", numpy.array([[2, 0, 1], [1, 1, 0]], dtype=numpy.int64), lambda x: numpoly.glexsort(x, graded=True, reverse=True)),
+                ):
+                    before_a = arr.tobytes()
+                    try:
+                        call(arr)
+                    except Exception:
+                        pass
+                    if arr.tobytes() != before_a:
+                        ctx.fail("mutated", "%s changed that array to %s" % (name, arr.tolist()))
         elif fn == "out":
             # explicit targets are exempt; the *other* arguments are not
             import numpoly as npo
